@@ -15,12 +15,13 @@ pub mod c14;
 pub mod c15;
 pub mod c15perf;
 pub mod c16;
+pub mod c18;
 
 use crate::engine::Prop;
 
 pub fn all() -> Vec<Box<dyn Prop>> {
     #[allow(unused_mut)]
-    let mut v: Vec<Box<dyn Prop>> = vec![Box::new(c01::C01), Box::new(c02::C02), Box::new(c04::C04), Box::new(c05::C05), Box::new(c06::C06), Box::new(c07::C07), Box::new(c08::C08), Box::new(c09::C09), Box::new(c10::C10), Box::new(faults::C11), Box::new(faults::C12), Box::new(c13::C13), Box::new(c14::C14), Box::new(c15::C15), Box::new(c16::C16)];
+    let mut v: Vec<Box<dyn Prop>> = vec![Box::new(c01::C01), Box::new(c02::C02), Box::new(c04::C04), Box::new(c05::C05), Box::new(c06::C06), Box::new(c07::C07), Box::new(c08::C08), Box::new(c09::C09), Box::new(c10::C10), Box::new(faults::C11), Box::new(faults::C12), Box::new(c13::C13), Box::new(c14::C14), Box::new(c15::C15), Box::new(c16::C16), Box::new(c18::C18)];
     #[cfg(feature = "int")]
     v.push(Box::new(c03::C03));
     v
